@@ -93,6 +93,134 @@ func runC24Extra(c *core.Check) {
 	}
 }
 
+func init() {
+	Extend("C02", runC02Extra,
+		Mutant{Name: "seed-C02a-max-count-host-restored-from-min-host", File: "internal/data_model/transfer.go", Rule: "C02-R7",
+			Old: "		s2.MaxCounterHostTag = s2.MaxHostTag\n		s2.MaxCounterHostStag = s2.MaxHostStag\n", New: "		s2.MaxCounterHostTag = s2.MinHostTag\n		s2.MaxCounterHostStag = s2.MinHostStag\n"},
+		Mutant{Name: "min-host-string-restored-from-wrong-field", File: "internal/data_model/transfer.go", Rule: "C02-R7",
+			Old: "		s2.MinHostStag = s2.MaxHostStag\n", New: "		s2.MinHostStag = s2.MaxCounterHostStag\n"},
+		// C02-R8's control is the stored seed C02-b itself (it needs two edits; replayed by the thorough tier)
+		Mutant{Name: "top-elements-slice-built-on-shared-scratch", File: "internal/agent/agent_shard_send.go", Rule: "C02-R8",
+			Old: "		var top []tlstatshouse.TopElement\n", New: "		top := sb.Metrics[0].Top[:0]\n"})
+	Extend("C05", runC05Extra,
+		Mutant{Name: "seed-C05a-nosample-flag-from-parent-group", File: "internal/data_model/sampling.go", Rule: "C05-R6", Occurrence: 1,
+			Old: "			noSampleAgent: items[0].metric.NoSampleAgent,\n", New: "			noSampleAgent: g.noSampleAgent,\n"})
+}
+
+// C02-R7: what the decoder substitutes for an elided host is what the encoder compared with.
+// C02-R8: slices kept inside the wire object are not shared between rows.
+func runC02Extra(c *core.Check) {
+	c.Decides += " R7 the decoder restores an absent min / max-count host from exactly the field (max host, integer and string form) that the encoder compared it with when it decided to omit it; R8 the slice of top elements handed to SetTop is built from nil inside the per-row callback (the wire object keeps a reference until the bucket is serialised, so a slice reused between rows would be overwritten by later rows)."
+	c.Rule("C02-R7", "K7 encoder/decoder agreement", 4, "for X in {MinHost, MaxCounterHost}: MultiValueToTL sets X only under X != Y (struct comparison of TagUnion fields); MergeWithTL2 stores s2.XTag <- s2.YTag and s2.XStag <- s2.YStag with the same Y")
+	enc := need(c, "C02-R7", "internal/data_model.(*MultiValue).MultiValueToTL")
+	dec := need(c, "C02-R7", "internal/data_model.(*MultiValue).MergeWithTL2")
+	if enc != nil && dec != nil {
+		for _, x := range []string{"MinHost", "MaxCounterHost"} {
+			// encoder: the guard of SetXTag names the field compared with
+			y := ""
+			for _, s := range core.CallsTo(enc, "*StatshouseMultiValue).Set"+x+"Tag") {
+				for _, g := range core.Facts(s.Block()) {
+					for _, l := range g.Alts {
+						if l.Op != token.EQL || l.Pol {
+							continue
+						}
+						a, b := core.Expr(l.X), core.Expr(l.Y)
+						if strings.HasSuffix(a, "."+x+"Tag") && strings.Contains(b, ".Value.") && strings.HasSuffix(b, "HostTag") {
+							y = strings.TrimSuffix(b[strings.LastIndex(b, ".")+1:], "Tag")
+						}
+						if strings.HasSuffix(b, "."+x+"Tag") && strings.Contains(a, ".Value.") && strings.HasSuffix(a, "HostTag") {
+							y = strings.TrimSuffix(a[strings.LastIndex(a, ".")+1:], "Tag")
+						}
+					}
+				}
+			}
+			if y == "" {
+				c.Undecided("C02-R7", "internal/data_model.(*MultiValue).MultiValueToTL/elision-guard:"+x, enc.Pos(), "cannot find the `"+x+"Tag != <other host>` guard of Set"+x+"Tag")
+				continue
+			}
+			for _, suffix := range []string{"Tag", "Stag"} {
+				ws := core.FieldStoresU([]*ssa.Function{dec}, "internal/data_model/gen2/internal.StatshouseMultiValueBytes", x+suffix)
+				site := "internal/data_model.(*MultiValue).MergeWithTL2/restore:" + x + suffix
+				if len(ws) == 0 {
+					c.Fail("C02-R7", site, dec.Pos(), "the decoder never restores "+x+suffix+" although the encoder omits it when it equals "+y+suffix)
+					continue
+				}
+				for _, w := range ws {
+					v := core.Expr(w.Val)
+					c.Require(strings.HasSuffix(v, "."+y+suffix), "C02-R7", site, w.Instr.Pos(), "restored from the field the encoder compared with ("+y+suffix+")",
+						"the encoder omits "+x+" when it equals "+y+", but the decoder rebuilds "+x+suffix+" from "+v+": rows whose hosts differ arrive with the wrong host attribution")
+				}
+			}
+		}
+	}
+
+	c.Rule("C02-R8", "K7 ownership", 1, "every slice argument of SetTop in the agent's row callback has only nil / make roots through its append chain (no slice of a captured or outer variable)")
+	n := 0
+	for _, fn := range c.Prog.FuncsIn("internal/agent") {
+		for _, s := range core.CallsTo(fn, "*StatshouseMultiItem).SetTop", "*StatshouseMultiItemBytes).SetTop") {
+			n++
+			bad := staleRoots(s.Arg(1), map[ssa.Value]bool{})
+			c.Require(len(bad) == 0, "C02-R8", core.Ordinals([]core.Site{s})[0], s.Pos(), "top elements slice is fresh per row",
+				"the slice kept by SetTop is built on storage that outlives the row ("+strings.Join(bad, "; ")+"): the bucket is serialised after all rows are assembled, so later rows overwrite the top elements of earlier rows")
+		}
+	}
+	if n == 0 {
+		c.Undecided("C02-R8", "internal/agent/SetTop", 0, "no SetTop call found in package agent")
+	}
+}
+
+// staleRoots lists the roots of a slice value (through phi and append) that are not
+// fresh storage (nil, make, literal).
+func staleRoots(v ssa.Value, seen map[ssa.Value]bool) []string {
+	if seen[v] {
+		return nil
+	}
+	seen[v] = true
+	switch x := v.(type) {
+	case *ssa.Const:
+		return nil
+	case *ssa.MakeSlice:
+		return nil
+	case *ssa.Phi:
+		var out []string
+		for _, e := range x.Edges {
+			out = append(out, staleRoots(e, seen)...)
+		}
+		return out
+	case *ssa.Call:
+		if core.CalleeName(&x.Call) == "builtin append" {
+			return staleRoots(x.Call.Args[0], seen)
+		}
+	case *ssa.Slice:
+		if a, ok := x.X.(*ssa.Alloc); ok && a.Parent() == x.Parent() {
+			return nil // slice of a local array literal
+		}
+		return staleRoots(x.X, seen)
+	case *ssa.Convert:
+		return staleRoots(x.X, seen)
+	case *ssa.ChangeType:
+		return staleRoots(x.X, seen)
+	}
+	return []string{core.Expr(v)}
+}
+
+// C05-R6: a partition's not-to-sample flag comes from the metric of its rows.
+func runC05Extra(c *core.Check) {
+	c.Decides += " R6 every samplerGroup's not-to-sample flag is taken from the metric meta of the rows of that very group (never inherited from the parent group), so the unconditional-keep branch of run() sees it for every way a group is formed (incl. metrics with a dedicated budget)."
+	c.Rule("C05-R6", "K7 provenance", 3, "every store to samplerGroup.noSampleAgent takes <rows of the group>[0].metric.NoSampleAgent")
+	n := 0
+	for _, w := range core.FieldWrites(c.Prog.FuncsIn("internal/data_model"), "internal/data_model.samplerGroup", "noSampleAgent") {
+		n++
+		v := core.Expr(w.Val)
+		ok := strings.HasSuffix(v, "[0].metric.NoSampleAgent") || strings.HasSuffix(v, ".metric.NoSampleAgent")
+		c.Require(ok, "C05-R6", fmt.Sprintf("%s/store:samplerGroup.noSampleAgent#%d", core.FuncName(w.Fn), n), w.Instr.Pos(), "flag taken from the group's own metric",
+			"a sampler group's not-to-sample flag is "+v+", not the NoSampleAgent of its rows' metric: such a group is randomly sampled although its metric must always be kept with factor 1")
+	}
+	if n == 0 {
+		c.Undecided("C05-R6", "internal/data_model/samplerGroup.noSampleAgent", 0, "no store to samplerGroup.noSampleAgent found")
+	}
+}
+
 // derivesAllPaths reports whether v, on every path (every phi edge), is computed by
 // additions/conversions from a value satisfying pred. undecided lists value forms the
 // small idiom table does not cover.
